@@ -102,6 +102,14 @@ class Inliner:
             return None, None
         tr = callee.get("trait")
         st = callee.get("self_ty")
+        # <ManuallyDrop<Rc<T>> as Clone>::clone is core's derive: it clones the wrapped handle
+        if callee.get("def") == "core::clone::Clone::clone" and st and st.get("adt") == "core::mem::ManuallyDrop" and st.get("peel", 0) == 0:
+            inner = st.get("s", "")
+            for hty, hadt in (("rc::Rc<", "cactusref::rc::Rc"), ("rc::Weak<", "cactusref::rc::Weak")):
+                if inner.startswith("core::mem::ManuallyDrop<" + hty):
+                    for f in facts.fns.values():
+                        if f.f.get("impl_trait") == "core::clone::Clone" and f.name == "clone" and (f.f.get("impl_self") or {}).get("adt") == hadt:
+                            return f, None
         # Self-typed trait call inside a default method being inlined
         if tr and st is not None and st.get("k") == "param" and st.get("s") == "Self" and self_subst is not None:
             name = callee["def"].rsplit("::", 1)[1]
